@@ -71,6 +71,28 @@ def gen(ctx):
                       "rbuf": [4096], "lockstep": False, "quiesce_each": False}
                 scen.append({"id": "backpressure%d" % j, "client": c, "server": s, "seed": "", "siat": iat if blocked == "s" else 0, "ciat": iat if blocked == "c" else 0,
                              "biased": False, "legacy": False, "spad": 100, "cpad": 100, "refpad": False, "rseed": j, "script": sc}); j += 1
+    # reader and writer of one endpoint provably overlap: the peer's segments are delivered while the endpoint is held at
+    # the entry of a network Write (its buffer not yet copied) and the Write goes on after its reader consumed them
+    j = 0
+    for c, s in (("real", "real"), ("real", "ref"), ("ref", "real")):
+        for iat in ((0, 1, 2) if not quick else (0, 1, 2)):
+            for rep in range(2 if quick else 6):
+                sc = {"cw": [1448, 3000, 100, 1427], "sw": [1448, 3000, 100, 1427], "c2s": {"mode": "whole", "during_write": (j + rep) % 2 == 0},
+                      "s2c": {"mode": "whole", "during_write": (j + rep) % 2 == 1}, "rbuf": [4096], "lockstep": False, "quiesce_each": False}
+                scen.append({"id": "overlap%d" % j, "client": c, "server": s, "seed": "", "siat": iat, "ciat": iat, "biased": False, "legacy": False,
+                             "spad": 100, "cpad": 100, "refpad": False, "rseed": j, "script": sc}); j += 1
+    # the peer writes its last bytes and closes at once: the reader gets all of them before the end of the stream, whether
+    # the network hands over the last bytes and the end separately or in ONE Read (n > 0, io.EOF), and whatever the size
+    # of the application's read buffer
+    j = 0
+    for c, s in (("real", "real"), ("real", "ref"), ("ref", "real")):
+        for d in ("c2s", "s2c"):
+            for together in (False, True):
+                for rbuf in ([4096], [16], [1427, 1], [70000]) if not quick else ([4096], [16]):
+                    sc = {"cw": [100], "sw": [100], "c2s": {"mode": "whole"}, "s2c": {"mode": "whole"}, "rbuf": rbuf, "lockstep": True, "quiesce_each": True,
+                          "final": {"d": d, "n": [3000, 1, 1448, 20000][j % 4], "together": together}}
+                    scen.append({"id": "final%d" % j, "client": c, "server": s, "seed": "", "siat": 0, "ciat": 0, "biased": False, "legacy": False,
+                                 "spad": 100, "cpad": 100, "refpad": False, "rseed": j, "script": sc}); j += 1
     # cuts around frame boundaries of a predictable stream: reference sender (no padding) -> real receiver
     for (c, s, hs) in (("real", "ref", 96), ("ref", "real", 64)):
         for pad in ((0, 300) if s == "ref" else (77, 300)):
